@@ -114,6 +114,13 @@ func New(opt Options) *Node {
 		n.Cons = consensus.New(cfg)
 		n.Cons.SetQueueClient(n.Q.Client())
 	}
+	// The blockchain module starts in its fast-download mode, in which a block fetched from a peer
+	// (EventSyncBlock) is parked in a temporary table instead of being processed; a goroutine started by
+	// SetQueueClient leaves that mode at once on a single-mode node. A real node receives sync blocks only
+	// in answer to its own requests, i.e. after that decision; the harness waits for it likewise.
+	for i := 0; i < 30000 && n.Chain.GetDownloadSyncStatus() == 1; i++ {
+		time.Sleep(time.Millisecond)
+	}
 	n.Client = n.Q.Client()
 	api, err := client.New(n.Q.Client(), nil)
 	if err != nil {
